@@ -58,10 +58,101 @@ func (m *Mutex) Unlock() {
 	}
 }
 
+// RWMutex is a writer-preferring reader/writer lock whose waits are channel receives (durable
+// for synctest), with the semantics socketace could rely on from sync.RWMutex: any number of
+// readers or one writer; a blocked Lock keeps later RLocks out; hand-over in arrival order.
+type RWMutex struct {
+	m       sync.Mutex // protects the fields below; never held while waiting
+	readers int
+	writer  bool
+	q       []*rwWaiter
+}
+
+type rwWaiter struct {
+	ch    chan struct{}
+	write bool
+}
+
+func (rw *RWMutex) RLock() {
+	rw.m.Lock()
+	if !rw.writer && len(rw.q) == 0 {
+		rw.readers++
+		rw.m.Unlock()
+		return
+	}
+	w := &rwWaiter{ch: make(chan struct{})}
+	rw.q = append(rw.q, w)
+	rw.m.Unlock()
+	<-w.ch
+}
+
+func (rw *RWMutex) RUnlock() {
+	rw.m.Lock()
+	if rw.readers <= 0 {
+		rw.m.Unlock()
+		panic("syncshim: RUnlock of unlocked RWMutex")
+	}
+	rw.readers--
+	rw.grant()
+	rw.m.Unlock()
+}
+
+func (rw *RWMutex) Lock() {
+	rw.m.Lock()
+	if !rw.writer && rw.readers == 0 && len(rw.q) == 0 {
+		rw.writer = true
+		rw.m.Unlock()
+		return
+	}
+	w := &rwWaiter{ch: make(chan struct{}), write: true}
+	rw.q = append(rw.q, w)
+	rw.m.Unlock()
+	<-w.ch
+}
+
+func (rw *RWMutex) Unlock() {
+	rw.m.Lock()
+	if !rw.writer {
+		rw.m.Unlock()
+		panic("syncshim: Unlock of unlocked RWMutex")
+	}
+	rw.writer = false
+	rw.grant()
+	rw.m.Unlock()
+}
+
+// grant hands the lock to the waiters at the head of the queue (rw.m held).
+func (rw *RWMutex) grant() {
+	for len(rw.q) > 0 {
+		w := rw.q[0]
+		if w.write {
+			if rw.readers == 0 && !rw.writer {
+				rw.writer = true
+				rw.q = rw.q[1:]
+				close(w.ch)
+			}
+			return
+		}
+		if rw.writer {
+			return
+		}
+		rw.readers++
+		rw.q = rw.q[1:]
+		close(w.ch)
+	}
+}
+
+// RLocker returns a Locker whose Lock/Unlock are RLock/RUnlock.
+func (rw *RWMutex) RLocker() sync.Locker { return (*rlocker)(rw) }
+
+type rlocker RWMutex
+
+func (r *rlocker) Lock()   { (*RWMutex)(r).RLock() }
+func (r *rlocker) Unlock() { (*RWMutex)(r).RUnlock() }
+
 type (
 	WaitGroup = sync.WaitGroup
 	Once      = sync.Once
-	RWMutex   = sync.RWMutex
 	Cond      = sync.Cond
 	Map       = sync.Map
 	Pool      = sync.Pool
